@@ -357,7 +357,11 @@ func handleRefreshRequest(req Request, stunMsg *stun.Message) error {
 	}
 
 	if lifetimeDuration != 0 {
-		a.Refresh(lifetimeDuration)
+		if !a.Refresh(lifetimeDuration) {
+			// The lifetime ran out while the request was on its way through:
+			// the allocation is as good as gone, and is treated as such.
+			return fmt.Errorf("%w %v:%v", errNoAllocationFound, req.SrcAddr, req.Conn.LocalAddr())
+		}
 	} else {
 		req.AllocationManager.DeleteAllocation(fiveTuple)
 	}
